@@ -175,6 +175,9 @@ func composeSession(b *broker.Broker) error {
 		return err
 	}
 	b.Publish("big", strings.Repeat("x", 200), 0, false) // dropped: exceeds the client's maximum packet size
+	// (the queue is read in order: once the small message behind it has arrived, the large one has been looked at)
+	b.Publish("big", "after-big", 0, false)
+	_ = c3.WaitPayload("after-big", step)
 	// re-authentication with the method of CONNECT and data of its own
 	_ = c3.Send(&mqttx.Packet{Type: mqttx.AUTH, Code: 0x19, Props: &mqttx.Props{AuthMethod: &m, AuthData: []byte("reauth-data"), HasAuthData: true}})
 	_, _ = c3.WaitType(mqttx.AUTH, 0, 2*time.Second)
